@@ -1,7 +1,8 @@
 import KonstVerif.Model.Basic
 /-
   Generic "double-ended by-value iterator refines a deque" development
-  (from notes/prototypes/Deque.lean; directions are `Konst.Dir`).
+  (the generic part of notes/prototypes/Deque.lean, unchanged: structure DE, runImpl, runDeque,
+  refine; `Dir` is `Konst.Dir` from Model/Basic).  Shared by C07, C08, C09.
 -/
 namespace Konst.Deque
 open Konst
